@@ -140,7 +140,7 @@ pub fn install_panic_hook() {
             };
             LAST_PANIC.with(|p| *p.borrow_mut() = Some(format!("{loc}: {msg}")));
             if std::env::var_os("BV_PANIC_VERBOSE").is_some() {
-                eprintln!("panic at {loc}: {msg}");
+                eprintln!("panic at {loc}: {msg}\n{}", std::backtrace::Backtrace::force_capture());
             }
         }));
     });
